@@ -188,6 +188,24 @@ CLAIMS = {
               "apply to every file, also to files covered by a directory rule (the conjunctive reading)."),
         technique="Lean 4 proof (case analysis + induction over the rule list, regex semantics as a parameter) + differential check",
         ref="DESIGN.md §3 C18"),
+    "C20": dict(
+        text=("Kernel-checked theorems about (I) the init-config merge at text level, for every existing text, template and YAML parser (the "
+              "parser is a parameter): a written result parses and keeps every pre-existing top-level setting (written_keeps_settings), the old "
+              "text is kept in order with one insertion (merge_keeps_text), added sections never shadow a user section under hyphen/underscore "
+              "normalisation and settings stay in effect (added_do_not_shadow, settings_stay_in_effect), a second run finds nothing missing "
+              "(second_run_complete, complete_means_untouched), and the shipped template regenerated from /repo yields all 16 linter sections, "
+              "each defining exactly its own top-level key (template_sections, by kernel evaluation of the model on the 442 template lines); "
+              "(II) the config set/get/reset state machine over the file on disk: a rejected value leaves the file unchanged, every accepted "
+              "value is returned by get after the save/load round trip for any key spelling, other keys are undisturbed, acceptance equals the "
+              "documented validity (accepted_iff_valid), the file stays loadable under every command sequence (run_keeps_usable, induction), "
+              "reset restores the regenerated defaults. Five genuine defects repaired. Tied to /repo by running the real CLI: exact merged text "
+              "and outcome, second run, YAML validity, effective settings, every linter command on the generated file of every preset, and "
+              "exit code / printed value / file content after every config command on YAML and JSON files."),
+        note=("PyYAML and json save/load round trips and Python's int()/float() conversions are trusted (the parser is a parameter of the "
+              "theorems) and sampled by the correspondence check; refusing a merge that cannot be done textually (flow-style or indented "
+              "top-level mapping) counts as keeping the settings."),
+        technique="Lean 4 proof (fold/induction over ordered dictionaries and command sequences, YAML parser as a parameter, kernel evaluation on the regenerated template) + T1 tables + differential check",
+        ref="DESIGN.md §3 C20"),
 }
 ALL = [f"C{n:02d}" for n in range(1, 21)]
 NOT_YET = "machinery for this property is not built yet in this revision of /verif (planned, see DESIGN.md §3); not claimed"
